@@ -65,6 +65,11 @@ let render op args =
   match op with
   | "render" | "text" | "frags" | "recursion" | "validate" | "spaceless" -> Some (show_obs (api_render_string (world_of args) (arg args 0) (parse_ctx (argd args 1))))
   | "renderfile" | "invalid" -> Some (show_obs (api_render_file (world_of args) (arg args 0) (parse_ctx (argd args 1))))
+  | "cyclic" ->
+    (* no amount of fuel suffices: the real code recurses until the process dies *)
+    (match api_render_file (world_of args) (arg args 0) (parse_ctx (argd args 1)) with
+     | OFuel -> Some "crash"
+     | o -> Some (show_obs o))
   | "loadlog" | "canary" ->
     let (o, log) = api_render_file_log (world_of args) (arg args 0) (parse_ctx (argd args 1)) in
     (match log with
